@@ -135,7 +135,7 @@ def guard_by_worlds(prog, f, is_site):
                 if t.crate == "mdk_core" and not t.is_closure() and not t.is_test_like() and t.path != f.path:
                     helpers[t.path] = t
     roots = [f] + list(helpers.values())
-    for g in roots + [prog.fns[p_] for p_ in prog.fns if prog.fns[p_].root in [r.path for r in roots] and prog.fns[p_] not in roots]:
+    for g in [x for r in roots for x in prog.family(r)]:
         for c in g.calls():
             by_callee[id(c.callee)] = c
     WRITES = ("save_group", "replace_group_relays", "save_welcome", "save_processed_welcome")
@@ -347,7 +347,7 @@ def limit_defaults(prog):
 
 def _describe_condition(prog, f, l, limits, first_arg=2):
     """what an input-validation refusal tests: the argument fields it reads and the bound it compares them with"""
-    scope = set(q for q in prog.fns if q == f.path or q.startswith(f.path + "::{closure"))
+    scope = set(g.path for g in prog.family(f))
     og = A.origins(prog, f, l, scope=scope, _follow_callers=False)
     atoms = set()
     for g, pl in og.places:
@@ -670,7 +670,7 @@ def clause_accept_decline(prog, rep):
 
 def clause_pending_only(prog, rep, pw):
     vs = set()
-    for g in [pw] + [prog.fns[p] for p in prog.extent(pw) if p in prog.fns and prog.fns[p].root == pw.path]:
+    for g in prog.family(pw):
         for bb, s in g.aggregates("GroupState"):
             vs.add(s["variant"])
     rep.check(vs == {"Pending"} or vs == {"Pending", "Active"} and False or vs <= {"Pending"} | {"Active"} and _active_only_compared(pw), "consent", "process_welcome/state-written",
